@@ -121,6 +121,16 @@ def do(e, op):
             return limit_df(table(), fs, start=op[1], stop=op[2], reset_indices=op[3])
         if k == 'epoch_df':
             return epoch_df(table(), len(sig), op[1])
+        if k in ('epoch_df_sub', 'limit_df_sub', 'drop_samples_sub'):
+            # a stretch of the table that the caller cut out once and keeps (own row labels, absolute sample indices)
+            if 'sub' not in e:
+                dur = len(sig) / fs
+                e['sub'] = limit_df(table(), fs, start=round(dur * 0.55 * 8) / 8, stop=round(dur * 0.95 * 8) / 8, reset_indices=False)
+            if k == 'epoch_df_sub':
+                return epoch_df(e['sub'], len(sig), op[1])
+            if k == 'limit_df_sub':
+                return limit_df(e['sub'], fs, start=op[1], stop=None, reset_indices=op[2])
+            return drop_samples_df(e['sub'])
         if k == 'drop_samples':
             return drop_samples_df(table())
         if k == 'group2':
@@ -208,7 +218,7 @@ def run_sequence(sh, case, driver='sequence'):
     for v in vs:
         sh.violate(case, v, driver)
     shared = sum(1 for o in ops if o[0] in ('features', 'features_other_center', 'burst_features', 'recompute_edges', 'recompute_edges_lax', 'group2', 'group3',
-                                            'limit_df', 'epoch_df', 'plot_summary', 'shape', 'cyclepoints'))
+                                            'limit_df', 'epoch_df', 'epoch_df_sub', 'limit_df_sub', 'plot_summary', 'shape', 'cyclepoints'))
     sample = {k: case[k] for k in ('fs', 'f_range', 'thr', 'bk', 'fek', 'center', 'method', 'ops', 'readonly')}
     sh.case_done(case, len(ops) >= 2 and shared >= 2, sample=sample)
 
@@ -241,8 +251,11 @@ def gen_ops(rng, method, n, nsamp, fs):
             ops.append((('recompute_edges',) if rng.random() < 0.5 else ('recompute_edges_lax',)) if method == 'cycles' else ('features',))
         elif r < 0.74:
             ops.append(('limit_df', 0.25, round(dur * 0.75 * 4) / 4, bool(rng.random() < 0.6)))
+        elif r < 0.77:
+            ops.append(('epoch_df', int(nsamp // int(rng.integers(1, 5)))))
         elif r < 0.79:
-            ops.append(('epoch_df', int(nsamp // int(rng.integers(2, 5)))))
+            ops.append([('epoch_df_sub', int(nsamp // 2)), ('epoch_df_sub', int(nsamp // 2)), ('limit_df_sub', round(dur * 0.6 * 8) / 8, True),
+                        ('drop_samples_sub',)][int(rng.integers(0, 4))])
         elif r < 0.82:
             ops.append(('drop_samples',))
         elif r < 0.89:
